@@ -116,6 +116,9 @@ func main() {
 	}
 	prop := os.Args[1]
 	flag.CommandLine.Parse(os.Args[2:])
+	if prop == "selftest" {
+		os.Exit(selftest(flag.Args()))
+	}
 	if *tier == "" {
 		*tier = os.Getenv("VERIF_TIER")
 	}
@@ -804,4 +807,99 @@ func writeEvidence(prop, tier string, seed int64, sr *sweepResult, cfg tierCfg, 
 	b, _ := json.MarshalIndent(ev, "", " ")
 	os.MkdirAll(filepath.Join(verifDir, "evidence"), 0o755)
 	os.WriteFile(filepath.Join(verifDir, "evidence", prop+".json"), b, 0o644)
+}
+
+// selftest proves determinism on a sample: for every property, the same 64
+// seeds are run in 30 separate OS processes spread over GOMAXPROCS 1/4/16, and
+// the per-seed result records (violation, outcome, steps, switches, event-log
+// hash, counters) are compared. Any difference is a determinism bug of the
+// harness: exit 2.
+func selftest(props []string) int {
+	if len(props) == 0 {
+		for k := range tiers {
+			props = append(props, k)
+		}
+		sort.Strings(props)
+	}
+	var err error
+	scratch, err = os.MkdirTemp("", "verifsim-selftest-")
+	if err != nil {
+		die2("mktemp: %v", err)
+	}
+	defer cleanup()
+	if out, err := runCmd(verifDir, goEnv(), goBin, "run", "./verifgen", "-repo", "/repo", "-out", scratch); err != nil {
+		die2("verifgen failed: %v\n%s", err, out)
+	}
+	bin := filepath.Join(scratch, "worker.test")
+	if out, err := runCmd(verifDir, goEnv(), goBin, "test", "-c", "-overlay", filepath.Join(scratch, "overlay.json"), "-o", bin, "./worker"); err != nil {
+		die2("building the worker failed: %v\n%s", err, out)
+	}
+	// non-deterministic iteration in the harness itself would show up here first
+	bad := 0
+	const nProc = 30
+	nSeeds := int64(64)
+	if v := os.Getenv("VERIF_SELFTEST_SEEDS"); v != "" {
+		if n, e := strconv.ParseInt(v, 10, 64); e == nil {
+			nSeeds = n
+		}
+	}
+	for _, prop := range props {
+		base := int64(7) << 20
+		fps := make([]map[int64]string, nProc)
+		var procs []*proc
+		for i := 0; i < nProc; i++ {
+			workerProcs = []string{"1", "4", "16"}[i%3]
+			extra := []string{fmt.Sprintf("VERIF_SEED_BASE=%d", base), fmt.Sprintf("VERIF_COUNT=%d", nSeeds), "VERIF_OFFSET=0", "VERIF_STRIDE=1", "VERIF_MODE=sweep", "VERIF_MAX_VIOL=1000000"}
+			procs = append(procs, startWorker(prop, "quick", bin, extra, filepath.Join(scratch, fmt.Sprintf("st.%s.%d.jsonl", prop, i)), filepath.Join(scratch, fmt.Sprintf("st.%s.%d.hb", prop, i))))
+			if len(procs)%16 == 0 {
+				for _, p := range procs[len(procs)-16:] {
+					p.wait(60)
+				}
+			}
+		}
+		for _, p := range procs {
+			p.wait(60)
+		}
+		for i := 0; i < nProc; i++ {
+			fps[i] = map[int64]string{}
+			readLines(filepath.Join(scratch, fmt.Sprintf("st.%s.%d.jsonl", prop, i)), func(l *line) {
+				if l.Res == nil {
+					return
+				}
+				r := *l.Res
+				r.Detail = ""
+				b, _ := json.Marshal(r)
+				fps[i][l.Seed] = string(b)
+			})
+		}
+		diffs := 0
+		for i := 1; i < nProc; i++ {
+			if len(fps[i]) != len(fps[0]) {
+				diffs++
+				fmt.Printf("selftest %s: process %d produced %d records, process 0 produced %d\n", prop, i, len(fps[i]), len(fps[0]))
+				continue
+			}
+			for sd, fp := range fps[0] {
+				if fps[i][sd] != fp {
+					diffs++
+					if diffs < 4 {
+						fmt.Printf("selftest %s: seed %d differs between process 0 and %d (GOMAXPROCS %s):\n  %s\n  %s\n", prop, sd, i, []string{"1", "4", "16"}[i%3], fp, fps[i][sd])
+					}
+				}
+			}
+		}
+		fmt.Printf("selftest %s: %d seeds x %d processes (GOMAXPROCS 1/4/16): %d differing records\n", prop, len(fps[0]), nProc, diffs)
+		if diffs > 0 || int64(len(fps[0])) != nSeeds {
+			bad++
+		}
+	}
+	workerProcs = "1"
+	if bad > 0 {
+		fmt.Println("selftest: DETERMINISM FAILURE")
+		cleanup()
+		return 2
+	}
+	fmt.Println("selftest: deterministic")
+	cleanup()
+	return 0
 }
